@@ -55,6 +55,8 @@ def build_all(ck):
     libs = ck.libs = getattr(ck, "libs", None) or tbb_link()
     flags = ["-O1", "-g", "-fno-access-control", "-pthread"]
     ck.exe_pure = cxx_build(PID, "pure", [H + "pure.cpp"], flags=flags, libs=libs)
+    ck.exe_pure_asan = cxx_build(PID, "pure_asan", [H + "pure.cpp"], libs=libs,
+                                 flags=flags + ["-fsanitize=address", "-fno-omit-frame-pointer", "-fno-sanitize-recover=all"])
     ck.exe_real = cxx_build(PID, "real", [H + "real.cpp"], flags=flags, libs=libs)
     ck.exe_asan = cxx_build(PID, "real_asan", [H + "real.cpp"], libs=libs,
                             flags=flags + ["-fsanitize=address", "-fno-omit-frame-pointer", "-fno-sanitize-recover=all"])
@@ -226,6 +228,108 @@ def deref_offset(arg):
     return 0 if m.group(1) is None else int(m.group(2)) * (1 if m.group(1) == "+" else -1)
 
 
+
+def gen_scan_skeleton(ck, sws, c):
+    """statement skeleton of the parallel_scan task protocol -> Lean defs used by Model/C06Scan.lean.  A statement that is not
+    recognised (a rewrite) falls back to the default and is reported in the evidence: the replay of real event logs against the
+    model (corr:… task-protocol model) then decides; a recognised statement that DIFFERS is generated as it is and breaks the theorems."""
+    out, notes = [], []
+    NOIF = r"((?:(?!if\().)*?)"
+
+    def guard(name, params, regex, atoms, default):
+        m = re.search(regex, sws)
+        val = None
+        if m:
+            try:
+                val = lean_val(parse_guard(m.group(1), atoms))
+            except GuardSyntax as e:
+                notes.append("%s: %s" % (name, e))
+        else:
+            notes.append("%s: statement not found" % name)
+        out.append("def %s %s : Bool := %s" % (name, params, val or default))
+        c[name] = val or ("default " + default)
+
+    zm = re.search(r"final_sum_type\*(\w+)=m_right_zombie\.load\(", sws)
+    zn = zm.group(1) if zm else "right_zombie"
+    zat = [(re.escape(zn), "zombie"), (r"m_sum_slot", "ss"), (r"m_result\.m_right", "right"), (r"m_result\.m_left(?!_)", "left")]
+    # finish_scan::execute
+    recv = None
+    m = re.search(r"if\(" + NOIF + r"\)\{?\(\*m_sum_slot\)->reverse_join\(\*m_result\.m_left_sum\);", sws)
+    if m:
+        recv = "true"
+    else:
+        m = re.search(r"if\(" + NOIF + r"\)\{?m_result\.m_left_sum->reverse_join\(\*\*m_sum_slot\);", sws)
+        if m:
+            recv = "false"
+    jc = None
+    if m:
+        try:
+            jc = lean_val(parse_guard(m.group(1), zat))
+        except GuardSyntax as e:
+            notes.append("scanFinishJoins: %s" % e)
+    else:
+        notes.append("scanFinishJoins: reverse_join of finish_scan::execute not found")
+    out.append("def scanFinishJoins (zombie ss : Bool) : Bool := %s" % (jc or "(zombie && ss)"))
+    out.append("def scanFinishJoinRecvSlot : Bool := %s" % (recv or "true"))
+    c["scanFinishJoins"] = jc or "default"
+    c["scanFinishJoinRecvSlot"] = recv or "default"
+    guard("scanKeeps", "(zombie right : Bool)", r"if\(" + NOIF + r"\)\{m_return_slot=&m_result;\}else\{m_result\.self_destroy\(ed\);\}", zat, "(zombie || right)")
+    if re.search(r"m_result\.m_left_is_final=false;", sws):
+        guard("scanResetsLeftIsFinal", "(left : Bool)", r"if\(" + NOIF + r"\)\{?m_result\.m_left_is_final=false;", zat, "left")
+    else:
+        out.append("def scanResetsLeftIsFinal (left : Bool) : Bool := false")      # the statement is gone
+        c["scanResetsLeftIsFinal"] = "false (statement absent)"
+    # sum_node::execute
+    nj = None
+    if re.search(r"if\(m_incoming\)\{?m_left_sum->reverse_join\(\*m_incoming\);", sws):
+        nj = "true"
+    elif re.search(r"if\(m_incoming\)\{?m_incoming->reverse_join\(\*m_left_sum\);", sws):
+        nj = "false"
+    else:
+        notes.append("scanNodeJoinRecvLeftSum: reverse_join of sum_node::execute not found")
+    out.append("def scanNodeJoinRecvLeftSum : Bool := %s" % (nj or "true"))
+    c["scanNodeJoinRecvLeftSum"] = nj or "default"
+    # start_scan::execute
+    guard("scanLeafCond", "(isRight tas divisible exec : Bool)", r"if\(" + NOIF + r"\)\{if\(m_is_final\)",
+          [(r"m_is_right_child", "isRight"), (r"treat_as_stolen", "tas"), (r"m_range\.is_divisible\(\)", "divisible"),
+           (r"m_partition\.should_execute_range\(ed\)", "exec")], "(((isRight && (!tas)) || (!divisible)) || exec)")
+    lm = "if isFinal then 2 else if ss then 1 else 0"
+    if "if(m_is_final)m_body(m_range,final_scan_tag());elseif(m_sum_slot)m_body(m_range,pre_scan_tag());" in sws:
+        pass
+    elif "if(m_is_final)m_body(m_range,final_scan_tag());elsem_body(m_range,pre_scan_tag());" in sws:
+        lm = "if isFinal then 2 else 1"
+    elif "if(m_sum_slot)m_body(m_range,pre_scan_tag());elseif(m_is_final)m_body(m_range,final_scan_tag());" in sws:
+        lm = "if ss then 1 else if isFinal then 2 else 0"
+    else:
+        notes.append("scanLeafMode: leaf body dispatch not recognised")
+    out.append("def scanLeafMode (isFinal ss : Bool) : Nat := %s" % lm)
+    c["scanLeafMode"] = lm
+    guard("scanLeafWritesSlot", "(ss : Bool)", r"if\(" + NOIF + r"\)\{?\*m_sum_slot=&m_body\.get\(\);", [(r"m_sum_slot", "ss")], "ss")
+    scf = "true"
+    m = re.search(r"m_body=\*right_zombie;(m_is_final=false;)?", sws)
+    if m and not m.group(1) and not re.search(r"if\(treat_as_stolen\)\{(?:(?!\}).)*m_is_final=false;", sws):
+        scf = "false"
+    elif not m:
+        notes.append("scanStolenClearsFinal: `m_body = *right_zombie;` not found")
+    out.append("def scanStolenClearsFinal : Bool := %s" % scf)
+    c["scanStolenClearsFinal"] = scf
+    need = ["task*right_child=this->create_child(Range(m_range,split()),*m_left_sum,m_right,m_left_sum,m_stuff_last);",
+            "task*left_child=m_left_is_final?nullptr:this->create_child(m_range,*m_body,m_left,m_incoming,nullptr);",
+            "ref_count=(left_child!=nullptr)+(right_child!=nullptr);",
+            "m_body(*m_range.begin(),final_scan_tag());if(m_stuff_last)m_stuff_last->assign(m_body);",
+            "child->prepare_for_execution(body,incoming,stuff_last);returnchild;}else{body.finish_construction(this,range,stuff_last);return&body;",
+            "temp_body.reverse_join(body);", "root->prepare_for_execution(temp_body,nullptr,&body);", "temp_body.assign_to(body);"]
+    missing = [x for x in need if x not in sws]
+    if missing:
+        notes.append("pass-2 / run() statements not recognised (defaults used, replay decides): %s" % [x[:50] for x in missing])
+    out.append("def scanPass2Skeleton : Bool := true")
+    ck.extra["scan_skeleton_notes"] = notes
+    ck.oblige("gen:scan task-protocol skeleton extracted (finish_scan join condition / operand order / keep condition / m_left_is_final reset, "
+              "sum_node join operand order, leaf condition, leaf body dispatch, slot write, is_final cleared when treated as stolen)", "generated",
+              True, "unrecognised statements fall back to the default and are decided by the event-log replay: %s" % notes if notes else "all recognised")
+    return "\n".join(out) + "\n"
+
+
 def gen(ck):
     ck.libs = tbb_link()
     exe = cxx_build(PID, "consts", [H + "consts.cpp"], flags=["-O1", "-fno-access-control", "-pthread"], libs=ck.libs)
@@ -316,6 +420,7 @@ def gen(ck):
     body += "def scanTreatAsStolen (isRight stolen bodyNeLeftSum : Bool) : Bool := %s\n" % lean_val(g)
     body += "def scanGuardReadsLeftSum (isRight stolen bodyNeLeftSum : Bool) : Bool := %s\n" % lean_reads(g, "bodyNeLeftSum")
     c["scanTreatAsStolen"] = lean_val(g)
+    body += gen_scan_skeleton(ck, sws, c)
     # --- start_reduce::execute's lazy body split
     red_default = ("and", ("atom", "isRight", ""), ("atom", "(parentRef == 2)", ""))
     rws = strip_src(REDUCE_H)
@@ -350,6 +455,9 @@ def cmp_fn(c):
     if c.startswith("div"):
         d = int(c[3:])
         return lambda x, y: x // d < y // d
+    if c.startswith("gap"):
+        k = int(c[3:])
+        return lambda x, y: x + k < y
     m = int(c[3:])
     return lambda x, y: x % m < y % m
 
@@ -598,6 +706,96 @@ def run_pure(ck):
                         "post": [(lines[i], why, meta[i]) for i, why in post[:50]],
                         "crashes": [(lines[i], rc) for i, rc, _ in crashes[:10]]}
 
+
+
+# ---------------------------------------------------------------------------------------------
+# E-PURE: the coded partition loop on adversarial inputs, with its comparison trace, under AddressSanitizer
+# ---------------------------------------------------------------------------------------------
+ADV_CMPS = ["lt", "gt", "div3", "div1000", "mod7", "mod2", "gap1", "gap5"]      # gapK: strict partial order, NOT a strict weak ordering
+
+
+def adversarial_arrays(ck):
+    rng = ck.rng
+    quick = ck.tier == "quick"
+    g = ck.consts.get("sortGrainsize", 500)
+    sizes = list(range(1, 41)) + [63, 64, 65, g - 1, g, g + 1, 2 * g - 1, 2 * g, 2 * g + 1, 3 * g - 1, 3 * g]
+    if not quick:
+        sizes += list(range(41, 130)) + [rng.randrange(130, 3 * g) for _ in range(60)]
+    out = []
+    for c in ADV_CMPS:
+        for n in sizes:
+            fams = [("all-equal", [5] * n),
+                    ("organ-pipe", list(range(n // 2)) + list(range(n - n // 2, 0, -1))),
+                    ("sorted", list(range(n))), ("reverse", list(range(n, 0, -1))),
+                    ("pivot-dups", [(50 if (i * 7 + 3) % 4 else rng.randrange(0, 100)) for i in range(n)]),
+                    ("two-values", [rng.randrange(0, 2) for _ in range(n)]),
+                    ("saw", [i % 9 for i in range(n)]),
+                    ("random", [rng.randrange(0, 3 * n + 1) for _ in range(n)])]
+            if quick and n > 65:
+                fams = fams[:5] + fams[7:]
+            for fam, a in fams:
+                out.append((fam, c, a))
+    return out
+
+
+def split_trace_fields(line):
+    """'… trace=a:b,c:d' -> (head, [pairs])"""
+    head, _, tr = (line or "").partition(" trace=")
+    return head, [t for t in tr.split(",") if t]
+
+
+def run_partition(ck):
+    arrs = adversarial_arrays(ck)
+    lines = ["splitt %s %d %s" % (c, len(a), " ".join(map(str, a))) for (_, c, a) in arrs]
+    impl, crashes = run_lines(ck.exe_pure_asan, lines, timeout=1800, env={"ASAN_OPTIONS": "detect_leaks=0:halt_on_error=1"})
+    model = drv("c06", "\n".join(lines) + "\n", timeout=1800)
+    mism, post, notsame = [], [], []
+    for i, ((fam, c, a), im, mo) in enumerate(zip(arrs, impl, model)):
+        ck.count(1, ("splitt", fam, c, min(len(a), 70), (im or "")[:8]))
+        if im is None or im == SKIPPED:
+            continue
+        ih, it = split_trace_fields(im)
+        mh, mt = split_trace_fields(mo)
+        mf = dict(kv.split("=") for kv in mh.split() if "=" in kv)
+        mh = " ".join(w for w in mh.split() if "=" not in w)
+        k = int(mf.get("k", "0"))
+        if mf.get("same") != "1":
+            notsame.append(i)
+        # the three inner medians are function arguments (evaluation order unspecified): compared as a multiset; the rest in order
+        if ih != mh or sorted(it[:k]) != sorted(mt[:k]) or it[k:] != mt[k:]:
+            mism.append((i, "result" if ih != mh else "comparison trace"))
+        bad = check_split_post(c, a, ih) if not c.startswith("gap") else check_split_post_weak(c, a, ih)
+        if bad:
+            post.append((i, bad))
+        else:
+            ck.traces_validated += 1
+    ck.extra["partition_adversarial_inputs"] = len(lines)
+    ck.oblige("corr:the coded partition loop (pivot choice, swap to front, both inner scans, final swap, sizes) on adversarial inputs — all-equal, "
+              "organ-pipe, many duplicates of the pivot, sorted / reverse, two values, sizes 1..3*grainsize, comparators with large equivalence "
+              "classes and strict PARTIAL orders — result AND comparison sequence == model (splitRangeT, checked == splitRange)", "correspondence",
+              not mism and not notsame, "" if not (mism or notsame) else "%s: %s differs: impl %r model %r" % (
+                  lines[(mism or [(notsame[0], "")])[0][0]][:120], (mism or [(0, "traced model != splitRange")])[0][1],
+                  (impl[(mism or [(notsame[0], "")])[0][0]] or "")[:100], model[(mism or [(notsame[0], "")])[0][0]][:100]))
+    ck.oblige("monitor:split_range never touches memory outside [begin,end) (AddressSanitizer, exact-size blocks) and partitions around the pivot, "
+              "for strict weak orderings and for strict partial orders alike", "correspondence", not crashes and not post,
+              "" if not (crashes or post) else ("%s: %s" % (lines[crashes[0][0]][:120], crashes[0][2]) if crashes else "%s: %s" % (lines[post[0][0]][:120], post[0][1])))
+    if crashes:
+        i = min((cr[0] for cr in crashes), key=lambda k: len(lines[k]))
+        fam, c, a = arrs[i]
+        ck.counterexample("split:memory:%s:%s:n=%d" % (c, fam, len(a)), "quick_sort_range split constructor on %d keys (%s, comparator %s) reads or writes "
+                          "outside the array" % (len(a), fam, c),
+                          {"engine": "E-PURE", "harness": H + "pure.cpp", "exe": "pure_asan", "stdin": lines[i], "monitor": "no-crash"})
+    elif post:
+        i, why = min(post, key=lambda t: len(lines[t[0]]))
+        fam, c, a = arrs[i]
+        ck.counterexample("split:%s:%s:n=%d" % (c, fam, len(a)), "quick_sort_range split constructor (%s input): %s" % (fam, why),
+                          {"engine": "E-PURE", "harness": H + "pure.cpp", "stdin": lines[i].replace("splitt", "split", 1), "monitor": "split-post"})
+
+
+def check_split_post_weak(c, a, outline):
+    """postcondition for comparators that are only asymmetric (strict partial orders): permutation, pivot inside, sizes, and
+    nothing left of the pivot is preceded by it, nothing right of it precedes it"""
+    return check_split_post(c, a, outline)
 
 # ---------------------------------------------------------------------------------------------
 # E-REAL: parallel_reduce
@@ -944,8 +1142,19 @@ def run_det(ck):
             if n // g <= 3000:
                 cfgs.append(("simple", n, g))
             cfgs.append(("static", n, g))
+    # no bound on the range or the divisor any more: sizes where float(size) is inexact / beyond 2^16, large grains
+    for n, g in ([(70001, 997), (1 << 17, 4096), ((1 << 24) + 3, 1 << 19)] if quick else
+                 [(70001, 997), (65536, 1), (1 << 17, 4096), (1 << 20, 1 << 12), ((1 << 24) + 3, 1 << 19), ((1 << 26) + 5, 1 << 21)]):
+        cfgs.append(("static", n, g))
+        if n // g <= 3000:
+            cfgs.append(("simple", n, g))
     lines, meta = [], []
     threads = [1, 2, 3, 4, 8, 16] if quick else [1, 2, 3, 4, 5, 6, 7, 8, 12, 16]
+    # arena concurrencies above 64 (the divisor of static_partitioner is the arena's max_concurrency)
+    for n, g in ([(1000, 1), (70001, 97)] if quick else [(1000, 1), (4099, 3), (70001, 97), (1 << 20, 1 << 10)]):
+        for T in ([70] if quick else [65, 70, 100]):
+            lines.append("det static %d %d %d %d 0" % (n, g, T, rng.randrange(1 << 30)))
+            meta.append(("static", n, g, T))
     for part, n, g in cfgs:
         for T in threads:
             for rep in range(3 if quick else 10):
@@ -1007,8 +1216,6 @@ def run_det(ck):
             continue
         term = o.split(" term=", 1)[1]
         div = int(d.get("divisor", "0"))
-        if part == "static" and (n >= 65536 or div > 64):
-            continue
         want = mo[qi[(g, 1 if part == "static" else 0, n, div)]]
         if term != want:
             bad_model.append((i, "observed %s, model %s" % (term[:100], want[:100])))
@@ -1020,6 +1227,27 @@ def run_det(ck):
               "" if not bad_same else "%s: %s" % (lines[bad_same[0][0]], bad_same[0][1]))
     ck.oblige("corr:observed deterministic split/join tree == model term detTerm(range, grain[, divisor])", "correspondence",
               not bad_model, "" if not bad_model else "%s: %s" % (lines[bad_model[0][0]], bad_model[0][1]))
+    # static_partitioner across ARENA CONCURRENCIES: the property text promises identical results "across … thread counts"
+    by_ng = {}
+    for key, (i, term) in seen.items():
+        if key[0] == "static":
+            by_ng.setdefault(key[1:3], {})[key[3]] = (i, term)
+    differ = sorted((ng, d) for ng, d in by_ng.items() if len({t for (_, t) in d.values()}) > 1)
+    FKEY = "det:static-partitioner:arena-concurrency"
+    ck.oblige("monitor:parallel_deterministic_reduce(static_partitioner) builds the same split/join tree in arenas of different concurrency "
+              "(the property text: bit-identical 'across runs, thread counts and schedules')", "correspondence", not differ,
+              "" if not differ else "range [0,%d) grain %d: %d different trees for partition divisors %s (divisor = max_concurrency() of the arena)" % (
+                  differ[0][0][0], differ[0][0][1], len({t for (_, t) in differ[0][1].values()}), sorted(differ[0][1])[:6]),
+              cex_keys=[FKEY] if differ else None)
+    if differ:
+        (n0, g0), d = differ[0]
+        divs = sorted(d)
+        ck.counterexample(FKEY, "parallel_deterministic_reduce(blocked_range(0,%d,%d), body, static_partitioner()) builds different split/join trees "
+                          "in task_arenas of concurrency %d and %d (its partition divisor is read from max_concurrency() at entry): %s  vs  %s; a float sum "
+                          "therefore differs bit-wise between the two arenas (theorem det_reduce_static_depends_on_concurrency)" % (
+                              n0, g0, divs[0], divs[1], d[divs[0]][1][:60], d[divs[1]][1][:60]),
+                          {"engine": "E-REAL", "harness": H + "real.cpp", "stdin_pair": [lines[d[divs[0]][0]], lines[d[divs[1]][0]]], "repeat": 5,
+                           "expect": "equal term= in all runs"})
     if bad_same:
         i, text = bad_same[0]
         part, n, g, T = meta[i]
@@ -1158,6 +1386,54 @@ def scan_verdict(o, n):
     return steal_discipline(evs)
 
 
+
+def sp_commands(evs, g, n):
+    """observed event log of one parallel_scan over LRange [0,n) grain g -> commands for the task-protocol replay (drv c06sp)"""
+    ids = {0: 0}
+    for e in evs:
+        if e[0] == "S":
+            ids[e[1]] = len(ids)
+    cmds = ["init %d 0 %d" % (g, n)]
+    seen_x = {}
+    first_s = first_j = True
+    for i, e in enumerate(evs):
+        k = e[0]
+        if k == "S":
+            if first_s:
+                first_s = False
+                continue
+            rng_ = None
+            for f in evs[i + 1:]:
+                if f[-1] == e[-1]:
+                    if f[0] == "D":
+                        rng_ = (f[1], f[2])
+                    break
+            if rng_ is None:
+                cmds.append("S %d %d 0 0 0" % (ids[e[1]], ids.get(e[2], 99999)))
+                continue
+            spawner = seen_x.get(rng_)
+            cmds.append("S %d %d %d %d %d" % (ids[e[1]], ids.get(e[2], 99999), rng_[0], rng_[1], 0 if spawner == e[-1] else 1))
+        elif k == "X":
+            if (e[1], e[2], e[3]) in seen_x:
+                continue
+            seen_x[(e[1], e[2], e[3])] = e[-1]
+            seen_x.setdefault((e[2], e[3]), e[-1])        # the thread that spawned the right child [mid,hi)
+            cmds.append("X %d %d %d" % (e[1], e[2], e[3]))
+        elif k == "P":
+            cmds.append("P %d %d %d" % (ids.get(e[1], 99999), e[2], e[3]))
+        elif k == "F":
+            cmds.append("F %d %d %d %d %d" % (ids.get(e[1], 99999), e[2], e[3], e[4], e[5]))
+        elif k == "J":
+            if first_j:
+                first_j = False
+                continue
+            cmds.append("J %d %d" % (ids.get(e[1], 99999), ids.get(e[2], 99999)))
+        elif k == "A":
+            cmds.append("A %d %d" % (ids.get(e[1], 99999), ids.get(e[2], 99999)))
+    cmds.append("end")
+    return cmds
+
+
 def scan_line(sc):
     return "scan %s %d %d %d %d %d" % sc[:6] + (" re=%d" % sc[6] if sc[6] else "")
 
@@ -1199,6 +1475,7 @@ def run_scan(ck):
     crashes = crashes + [(len(lines) + k, rc, e) for k, rc, e in fcr]
     bad_mon, bad_val, bad_corr, bad_steal = [], [], [], []
     q, qi = [], []
+    sp_txt, sp_ix = [], []
     nzomb = nearly = 0
     not_run(ck, "scan", outs + fouts, crashes, lines + flines)
     for i, (x, o) in enumerate(zip(sc, outs)):
@@ -1228,6 +1505,9 @@ def run_scan(ck):
         q.append("scan %d 0 %d S %s E %s Y %s" % (g, n, " ".join("%d %d" % r for r in stolen), " ".join("%d %d" % r for r in execs),
                                                  " ".join("%d %d" % r for r in early)))
         qi.append((i, evs))
+        cm = sp_commands(evs, g, n)
+        sp_txt += cm
+        sp_ix.append((lines[i], n, len(cm)))
         if i % 83 == 0 or (re_mode and i % 37 == 0):
             ck.sample({"engine": "E-REAL", "scenario": lines[i], "stolen_right_children": stolen[:6], "kept_whole": execs[:6],
                        "right_children_run_inside_a_left_leaf_body": early[:6],
@@ -1258,6 +1538,29 @@ def run_scan(ck):
         ck.count(1, ("fsteal", n, g, d.get("forced")))
         if v:
             fbad.append((i, v))
+        if d.get("overflow") == "0" and "log" in d:
+            cm = sp_commands(d["log"], g, n)
+            sp_txt += cm
+            sp_ix.append((flines[i], n, len(cm)))
+    # every observed log must be a run of the task-protocol model (small-step; the theorems quantify over all its runs)
+    bad_sp = []
+    if sp_txt:
+        mo2 = drv("c06sp", "\n".join(sp_txt) + "\n", timeout=1800)
+        pos = 0
+        for ln, n, k in sp_ix:
+            seg = mo2[pos:pos + k]
+            pos += k
+            fails = [x for x in seg[:-1] if x != "ok"]
+            last = seg[-1] if seg else ""
+            good_end = last.startswith("done phase=3 wait=0 err=0 value=%s " % ("e" if n == 0 else "0..%d" % (n - 1)))
+            if fails or not good_end:
+                bad_sp.append((ln, fails[0] if fails else "final state: " + last))
+            else:
+                ck.traces_validated += 1
+    ck.extra["scan_protocol_replays"] = len(sp_ix)
+    ck.oblige("corr:observed parallel_scan event log (body splits, pre/final scans, reverse_joins, assigns, range splits, per thread) is a run "
+              "of the task-protocol model SP (every event an enabled step emitting exactly it; unobservable steps placed lazily)",
+              "correspondence", not bad_sp, "" if not bad_sp else "%s: %s" % (bad_sp[0][0], bad_sp[0][1]))
     ck.extra["scan_runs"] = len(sc)
     ck.extra["scan_stolen_right_children_observed"] = nzomb
     ck.extra["scan_right_children_run_inside_a_left_leaf_body"] = nearly
@@ -1590,8 +1893,10 @@ def run(ck):
         "is the oracle and subsumes every steal pattern, partitioner and grain size — and re-entrant bodies: a right child that its owner pops "
         "inside a left leaf's body call is a right child that starts while the parent's ref count is still 2; the lazy-split guard is the "
         "generated one (must be `is_right_child && ref == 2` whatever is_stolen says); values in the free monoid",
-        "deterministic reduce model: eager split, free-magma values; static_partitioner's proportional split is modelled for size < 65536 and "
-        "divisor <= 64 (where the binary32 formula is exact); its tree also depends on the partition divisor (= arena concurrency), by design of oneTBB",
+        "deterministic reduce model: eager split, free-magma values; static_partitioner's proportional split is the binary32 model of C05 "
+        "(C05.propRightPart: round-to-nearest-even after every operation) for every size and divisor; its tree depends on the partition divisor "
+        "(= max_concurrency() of the arena at entry): theorems are parametric in it, and the dependence is proved "
+        "(det_reduce_static_depends_on_concurrency) and demonstrated on the real library as a known finding",
         "scan model: big-step over the task tree with an oracle per right child: `stolen` (is_stolen(ed)), `exec` (should_execute_range) and `early` "
         "(the child is popped by its owner inside a leaf body of its left sibling — re-entrant body — i.e. not stolen, left sibling unfinished, "
         "m_left_sum still null; it is evaluated BEFORE the left subtree); the theorem holds for every oracle, over the generated treat_as_stolen "
@@ -1600,6 +1905,15 @@ def run(ck):
         "part rather than in the middle of one of its leaf body calls (the body call is atomic in the model); a really stolen task that would read "
         "m_left_sum is flagged (err) instead of modelling the race; the two children of a sum_node in pass 2 are evaluated right-then-left, the "
         "model flags (err) and the theorem excludes that they share a body",
+        "scan TASK-PROTOCOL model SP (Model/C06Scan.lean): small-step over the task tree of start_scan / finish_scan+sum_node / final_sum with the code's "
+        "own state words (ref counts, m_right_zombie, m_left_sum, m_left_is_final, phases, pass-2 leaf tasks), stealing = a Bool chosen by the schedule at every "
+        "start_scan entry, tasks in any order the reference counts allow; statement skeleton (join conditions, operand order of both reverse_join sites, keep "
+        "condition, m_left_is_final reset, leaf condition, leaf dispatch, slot write, is_final cleared on steal) GENERATED from the source text; theorems "
+        "scan_protocol_* hold for every schedule; every observed event log is replayed as a run of SP (unobservable steps placed lazily). A body call is "
+        "one atomic model step at its START stamp (a right child nested inside it appears after it); memory orders are not modelled; "
+        "'never pre-scanned after an earlier (pre or final) scan' is a theorem for every schedule (scan_prescan_never_after_final)",
+        "sort model: the partition loop is proved in bounds for every ASYMMETRIC comparator (strict partial orders included); a non-asymmetric comparator such "
+        "as <= is outside the quantifier (and outside the C++ requirements): the real split_range then reads below begin on all-equal input (probe, ASan); "
         "sort model: split_range / medians / is_divisible / serial probe (generated loop range and argument order) / pretest body (generated argument "
         "order); std::sort on leaves is a hypothesis (sorted permutation); parallel_for's tiling of the pretest range and its split decisions are "
         "taken from C05 (hypothesis `tiles`, oracle `Dec`)",
@@ -1622,6 +1936,7 @@ def run(ck):
     stage("lean", lambda ck: ck.lean_stage())
     stage("build", build_all)
     stage("pure", run_pure)
+    stage("partition", run_partition)
     stage("sort", run_sort)
     pure_counterexamples(ck)
     stage("reduce", run_reduce)
@@ -1633,7 +1948,7 @@ def run(ck):
 def replay(ck, obj):
     r = obj["replay"]
     build_all(ck)
-    exe = ck.exe_pure if r["harness"].endswith("pure.cpp") else (ck.exe_asan if r.get("exe") == "real_asan" else ck.exe_real)
+    exe = (ck.exe_pure_asan if r.get("exe") == "pure_asan" else ck.exe_pure) if r["harness"].endswith("pure.cpp") else (ck.exe_asan if r.get("exe") == "real_asan" else ck.exe_real)
     if "stdin_pair" in r:
         terms = set()
         for _ in range(r.get("repeat", 20)):
